@@ -4,6 +4,7 @@ import (
 	"fmt"
 	"go/types"
 	"math"
+	"math/big"
 	"strconv"
 	"strings"
 
@@ -51,12 +52,13 @@ func registerIntrinsics(e *Engine) {
 			return BVCi(64, lo)
 		}
 		t := p.Fresh(tag, BV(64))
+		p.emit(And(SLe(BVCi(64, lo), t), SLe(t, BVCi(64, hi))))
+		t.Lo, t.Hi, t.HasB = lo, hi, true
 		if hi-lo < 16 && hi-lo >= 0 {
 			for v := lo; v <= hi; v++ {
 				t.Dom = append(t.Dom, uint64(v))
 			}
 		}
-		p.emit(And(SLe(BVCi(64, lo), t), SLe(t, BVCi(64, hi))))
 		return t
 	}
 	I[M+"Int64"] = I[M+"Int"]
@@ -109,6 +111,10 @@ func registerIntrinsics(e *Engine) {
 			p.sample = map[string]interface{}{}
 		}
 		p.sample[concStr(p, a[0], "Sample key")] = showValue(unwrapIface(a[1]))
+		return nil
+	}
+	I[M+"SetUnwind"] = func(p *Path, fn *ssa.Function, a []Value) Value {
+		p.unwind = int(concInt(p, a[0], "SetUnwind"))
 		return nil
 	}
 	I[M+"Concretize"] = func(p *Path, fn *ssa.Function, a []Value) Value {
@@ -597,24 +603,35 @@ func (p *Path) fpCut(t *Term, w int, signed bool) (*Term, bool) {
 	if st != 1 {
 		return nil, false
 	}
+	// the cut needs 0 <= x < 2^44: first by interval reasoning, else by one recorded solver query
+	if lo, hi, ok := interval(x, 0); ok && lo.Sign() >= 0 && hi.Cmp(big.NewInt(1<<44)) < 0 {
+		return mk(x), true
+	}
 	inRange := And(SLe(BVC(64, 0), x), SLt(x, BVC(64, 1<<44)))
 	if inRange.IsTrue() {
 		return mk(x), true
 	}
-	// use the cut only when the range is implied by the path condition
-	if p.w != nil && p.nDec >= len(p.prefix) {
-		if p.w.s.CheckWith(Not(inRange)) == "unsat" {
-			p.fpCutOK(key)
-			return mk(x), true
-		}
+	if p.w == nil {
 		return nil, false
 	}
-	// replaying: repeat the decision made by the parent deterministically
-	if p.w != nil {
-		if p.w.s.CheckWith(Not(inRange)) == "unsat" {
-			return mk(x), true
-		}
+	var okCut bool
+	i := p.nDec
+	if i < len(p.prefix) {
+		okCut = p.prefix[i].Val == 1
+	} else {
+		okCut = p.w.s.CheckWith(Not(inRange)) == "unsat"
 	}
+	v := 0
+	if okCut {
+		v = 1
+	}
+	p.record(Decision{Val: v, Forced: true})
+	if okCut {
+		return mk(x), true
+	}
+	p.X.mu.Lock()
+	p.X.res.Notes["floating-point position term kept (range 0<=x<2^44 not implied)"]++
+	p.X.mu.Unlock()
 	return nil, false
 }
 
